@@ -164,6 +164,17 @@ func orderCases() []orderCase {
 	cs = append(cs, orderCase{Name: "iter-array", Src: "it := <{|n| yield n; recur(n + 1)}>.new(1)\n[it.next, it.next, it.next].p", WantOut: "[1, 2, 3]\n"})
 	cs = append(cs, orderCase{Name: "iter-range", Src: "it := <{|n| yield n; recur(n + 1)}>.new(1)\n(it.next:it.next:it.next).p", WantOut: "(1:2:3)\n"})
 	cs = append(cs, orderCase{Name: "iter-embedded-str", Src: "it := <{|n| yield n; recur(n + 1)}>.new(1)\n\"#{it.next}-#{it.next}-#{it.next}\".p", WantOut: "1-2-3\n"})
+	// the multi-line cases again with CR and CRLF line breaks (the grammar accepts all three)
+	for _, oc := range append([]orderCase{}, cs...) {
+		if strings.Contains(oc.Src, "\n") && oc.Stdin == "" {
+			for _, nl := range [][2]string{{"CR", "\r"}, {"CRLF", "\r\n"}} {
+				v := oc
+				v.Name = oc.Name + "/" + nl[0]
+				v.Src = strings.ReplaceAll(oc.Src, "\n", nl[1])
+				cs = append(cs, v)
+			}
+		}
+	}
 	cs = append(cs, orderCase{Name: "iter-kwargs", Src: "it := <{|n| yield n; recur(n + 1)}>.new(1)\nff(it.next, k: it.next, j: it.next, i: it.next).p", WantOut: "[1, nil, nil, 2, 3, 4]\n"})
 	return cs
 }
@@ -265,6 +276,9 @@ var programs = []prog{
 	{Name: "obj-eq-traced-elements", Src: "U := {'==: m{|o| (\"eq\" + .id.S).p; .id == o.id}}\n{a: U.bear({id: 1}), b: U.bear({id: 2}), c: U.bear({id: 3})} == {a: U.bear({id: 1}), b: U.bear({id: 2}), c: U.bear({id: 3})}"},
 	{Name: "obj-eq-unequal-and-raising-element", Src: "U := {'==: m{|o| .id == o.id}}\n({owner: U.bear({id: 7}), count: 1} == {owner: nil, count: 2}).try.A"},
 	{Name: "map-nonscalar-eq-traced", Src: "U := {'==: m{|o| (\"eq\" + .id.S).p; .id == o.id}}\n%{[1]: U.bear({id: 1}), [2]: U.bear({id: 2})} == %{[2]: U.bear({id: 2}), [1]: U.bear({id: 1})}"},
+	// names that are equal ignoring case / that differ only in a suffix: listing and iteration order
+	{Name: "obj-keys-case", Src: "o := {q: 1, Q: 2, b: 3, _r: 4, _R: 5}\n[o.keys, o.values, o.items, o.keys(private?: true), o@{|k, v| k}, %{**o}.keys, o == {Q: 2, q: 1, b: 3, _R: 5, _r: 4}]"},
+	{Name: "obj-keys-suffix", Src: "o := {ab: 1, ab!: 2, ab?: 3, aB: 4, Ab: 5}\n[o.keys, o.values, o.S, %{**o}.A]"},
 	{Name: "print-map", Src: "%{\"b\": 1, \"a\": 2, 3: 4, nil: 5}.p\n%{\"b\": 1, \"a\": 2, 3: 4}.S"},
 	{Name: "print-map-tie", Src: "%{1.0000001: 'a, 1.0000002: 'b}.S"},
 	{Name: "print-map-tie-3", Src: "%{1.00000011: 1, 1.00000012: 2, 1.00000013: 3}.p"},
